@@ -161,3 +161,18 @@ Theorem C08_xml_exact_errors_changes_only_errors_and_text_cuts_total :
     mq (fst rs) = mq (fst rf) /\ mcons (fst rs) = mcons (fst rf).
 Proof. exact InstBulkTerm.xml_bulk_chunked_obs_total. Qed.
 Print Assumptions C08_xml_exact_errors_changes_only_errors_and_text_cuts_total.
+
+(* the flat queue with unit runs in default mode, fuel discharged (Inst/InstTotalDefault.v) *)
+From HV Require Inst.InstTotalDefault.
+Theorem C08_exact_errors_flat_unit_runs_total :
+  forall ent c1 sk fuel inject chunks (m : mach hstate (list N)) log,
+  InstTermination.HtmlTI m ->
+  (InstTermination.html_fuel (InstTermination.html_unread m + length (concat chunks) + length chunks * (50 * length inject)) <= fuel)%nat ->
+  (4 <= fuel)%nat -> regular log ->
+  let rf := drive_flat html_flavour false html_table html_simd ent c1 sk fuel inject chunks m log in
+  exists k, forall j,
+    let rs := drive_flat html_flavour true html_table html_simd ent c1 sk (k + j) inject chunks m log in
+    snd rs = snd rf /\ obs (mout (fst rs)) = obs (mout (fst rf)) /\ ceq (mc (fst rs)) (mc (fst rf)) /\
+    mq (fst rs) = mq (fst rf) /\ mcons (fst rs) = mcons (fst rf).
+Proof. exact InstTotalDefault.html_bulk_flat_obs_total. Qed.
+Print Assumptions C08_exact_errors_flat_unit_runs_total.
